@@ -165,37 +165,53 @@ func elemsB(e int) []elem {
 
 // caseB is one hostile cookie value.
 type caseB struct {
-	Val  []byte
+	Val  []byte // MessagePack payload (wrapped by the server's transport before injection) unless Raw
 	Desc string
+	Raw  bool // inject Val verbatim
 }
 
 // grammar enumerates the product lazily by index.
 type grammar struct {
-	hs     []header
-	e0, e1 []elem
-	seqs   [][2]int // element indexes; -1 = absent
-	extra  []caseB
+	hs      []header // headers announcing < 255 elements: combined with every sequence
+	big     []header // headers announcing >= 255 elements (each case costs O(announced)): combined with the core sequences
+	e0, e1  []elem
+	seqs    [][2]int // element indexes; -1 = absent
+	bigSeqs [][2]int
+	extra   []caseB
 }
 
 func newGrammar(quick bool) *grammar {
-	g := &grammar{hs: headersB(), e0: elemsB(0), e1: elemsB(1)}
+	g := &grammar{e0: elemsB(0), e1: elemsB(1)}
+	for _, h := range headersB() {
+		if h.N >= 255 {
+			g.big = append(g.big, h)
+		} else {
+			g.hs = append(g.hs, h)
+		}
+	}
 	g.seqs = append(g.seqs, [2]int{-1, -1})
-	for i := range g.e0 {
+	g.bigSeqs = append(g.bigSeqs, [2]int{-1, -1})
+	for i, a := range g.e0 {
 		g.seqs = append(g.seqs, [2]int{i, -1})
+		if a.Core || !quick {
+			g.bigSeqs = append(g.bigSeqs, [2]int{i, -1})
+		}
 	}
 	for i, a := range g.e0 {
-		if a.Truncated || (quick && !a.Core) {
+		if a.Truncated {
 			continue
 		}
 		for j, b := range g.e1 {
-			if quick && !b.Core {
+			if a.Core && b.Core {
+				g.bigSeqs = append(g.bigSeqs, [2]int{i, j})
+			} else if quick {
 				continue
 			}
 			g.seqs = append(g.seqs, [2]int{i, j})
 		}
 	}
 	for _, b := range []string{"\xdc", "\xdc\x00", "\xdd", "\xdd\x00", "\xdd\x00\x00", "\xdd\x00\x00\x00", "\xdd\xff\xff\xff"} {
-		g.extra = append(g.extra, caseB{[]byte(b), "truncated array header"})
+		g.extra = append(g.extra, caseB{Val: []byte(b), Desc: "truncated array header"})
 	}
 	// a long well-formed list: 300 canonical messages (array16), also cut in the middle and with one trailing byte
 	var many []msg
@@ -203,21 +219,31 @@ func newGrammar(quick bool) *grammar {
 		many = append(many, msg{Key: fmt.Sprintf("k%03d", i), Value: strings.Repeat("v", i%40), Level: uint8(0x30 + i%64), Old: i%3 == 0})
 	}
 	enc := encMsgs(many)
-	g.extra = append(g.extra, caseB{enc, "300 canonical messages"}, caseB{enc[:len(enc)/2], "300 canonical messages cut in half"},
-		caseB{append(append([]byte{}, enc...), 0x21), "300 canonical messages + 1 trailing byte"})
+	g.extra = append(g.extra, caseB{Val: enc, Desc: "300 canonical messages"}, caseB{Val: enc[:len(enc)/2], Desc: "300 canonical messages cut in half"},
+		caseB{Val: append(append([]byte{}, enc...), 0x21), Desc: "300 canonical messages + 1 trailing byte"})
+	// the same key used by flash messages and old input, in both orders
+	same := []msg{{Key: "A", Value: "flash-1", Level: 0x41}, {Key: "A", Value: "old-1", Level: 0x42, Old: true}, {Key: "A", Value: "flash-2", Level: 0x43}, {Key: "B", Value: "old-2", Old: true, Level: 0x44}, {Key: "B", Value: "flash-3", Level: 0x45}}
+	g.extra = append(g.extra, caseB{Val: encMsgs(same), Desc: "5 canonical messages sharing keys across kinds"})
 	// 2000 empty maps: the densest legal announcement (1 byte per message)
 	dense := append([]byte{0xdc, 0x07, 0xd0}, []byte(strings.Repeat("\x80", 2000))...)
-	g.extra = append(g.extra, caseB{dense, "array16(2000) of fixmap(0)"})
+	g.extra = append(g.extra, caseB{Val: dense, Desc: "array16(2000) of fixmap(0)"})
 	return g
 }
 
-func (g *grammar) size() int { return len(g.hs)*len(g.seqs) + len(g.extra) }
+func (g *grammar) size() int { return len(g.hs)*len(g.seqs) + len(g.big)*len(g.bigSeqs) + len(g.extra) }
 
 func (g *grammar) at(i int) caseB {
-	if i >= len(g.hs)*len(g.seqs) {
-		return g.extra[i-len(g.hs)*len(g.seqs)]
+	var h header
+	var s [2]int
+	switch n1, n2 := len(g.hs)*len(g.seqs), len(g.big)*len(g.bigSeqs); {
+	case i < n1:
+		h, s = g.hs[i%len(g.hs)], g.seqs[i/len(g.hs)]
+	case i < n1+n2:
+		i -= n1
+		h, s = g.big[i%len(g.big)], g.bigSeqs[i/len(g.big)]
+	default:
+		return g.extra[i-n1-n2]
 	}
-	h, s := g.hs[i%len(g.hs)], g.seqs[i/len(g.hs)]
 	b := append([]byte{}, h.B...)
 	desc := h.Desc
 	if s[0] >= 0 {
@@ -228,7 +254,7 @@ func (g *grammar) at(i int) caseB {
 		b = append(b, g.e1[s[1]].B...)
 		desc += " + " + g.e1[s[1]].Desc
 	}
-	return caseB{b, desc}
+	return caseB{Val: b, Desc: desc}
 }
 
 // ---- hostile-size cases (run one per child process) ----
@@ -262,10 +288,11 @@ func (s sizeCase) value() []byte {
 }
 
 func sizeCases(quick bool) []sizeCase {
-	ns := []uint64{1 << 20, 1 << 24, 1 << 26, 1 << 28, 1<<31 - 1, 1 << 31, 1<<32 - 1}
+	// 0x09090909 is the smallest array32 count whose four bytes may all travel in a Cookie header (HTAB)
+	ns := []uint64{1 << 20, 1 << 24, 1 << 26, 0x09090909, 1 << 28, 0x21212121, 1<<31 - 1, 1 << 31, 1<<32 - 1}
 	els := []string{"none", "one-valid-map", "nil", "fixmap(0)", "half-a-map"}
 	if quick {
-		ns = []uint64{1 << 20, 1 << 26, 1<<32 - 1}
+		ns = []uint64{1 << 20, 1 << 26, 0x09090909, 1<<32 - 1}
 		els = []string{"none", "one-valid-map"}
 	}
 	var out []sizeCase
